@@ -15,6 +15,8 @@ Faults are scripted per worker (index taken from the process name `selfplay-work
   factory   : [j, ...]      the factory raises in worker j
   game      : {j: k}        the k-th game of worker j raises in `analyze`
   killplay  : {j: k}        the k-th game of worker j announces a window and sleeps (the runner SIGKILLs it)
+  killinit  : [j, ...]      the factory of worker j announces a window and sleeps (the runner SIGKILLs it
+                            while the worker is still starting up)
 Every event is announced by an atomically created marker file `<dir>/<name>` holding {"t":…, "pid":…}.
 """
 import json
@@ -129,6 +131,9 @@ class ScriptedFactory(object):
         if j in self.spec.get("factory", []):
             _marker(self.dir, "fault-factory-%d" % j)
             raise ScriptedFaultError("scripted engine-factory failure in worker %d" % j)
+        if j in self.spec.get("killinit", []):
+            _marker(self.dir, "window-init-%d" % j)
+            time.sleep(120)
         eng = ScriptedEngine(j, self.spec, self.dir)
         _marker(self.dir, "ready-%d" % j)
         return eng
